@@ -1,6 +1,7 @@
 //! vh - conformance harness binding the TLA+ specifications under /verif/specs to the real library.
 #![allow(dead_code)]
 mod util;
+mod c22;
 mod c27;
 mod c29;
 mod proj;
@@ -12,6 +13,7 @@ fn main() {
     }
     let args = util::Args::parse(&argv[1..]);
     match argv[0].as_str() {
+        "c22" => c22::main(&args),
         "c27" => c27::main(&args),
         "c29" => c29::main(&args),
         other => util::tool_error(&format!("unknown subcommand {other}")),
